@@ -338,16 +338,21 @@ func translateOneDataBlob(logger log.Logger, match stringMatcher, visitor visito
 		// A change due to repairing invalid UTF8 does not count as a "match".
 		// For example, the access control visitor only wants to match if
 		// a request is allowed or not.
+		decodeErr := err
 		repairedEvents, c, err := tryRepairInvalidUTF8InBlob(blob)
 		changed = changed || c
 		if err != nil {
 			logger.Error("failed to repair invalid utf-8 in history event blob", tag.Error(err))
 			metrics.TranslationErrors.WithLabelValues(metrics.UTF8RepairTranslationKind, metrics.HistoryBlobMessageType).Inc()
 			return blob, matched, changed, err
-		} else if changed {
+		} else if c {
 			logger.Debug("repaired invalid utf-8 in history event blob")
 			metrics.TranslationCount.WithLabelValues(metrics.UTF8RepairTranslationKind, metrics.HistoryBlobMessageType).Inc()
 			events = repairedEvents
+		} else {
+			// Nothing was repairable (the invalid UTF-8 is not in a failure message): the blob cannot be decoded, so it
+			// can be neither translated nor checked. Report that instead of treating it as a blob without events.
+			return blob, matched, changed, decodeErr
 		}
 	}
 
